@@ -660,6 +660,7 @@ func c14R6(p *Prog, r *Report) {
 		// reset only under a condition mentioning the "clear" query value
 		rc := resetCalls[0]
 		guard := false
+		var guardConds []ast.Node
 		for _, v := range gs.G.V {
 			if v.Kind != VCond {
 				continue
@@ -667,10 +668,29 @@ func c14R6(p *Prog, r *Report) {
 			for _, e := range v.Succs {
 				if e.Label == LTrue && gs.G.EdgeDominates([]Edge{e}, rc.V) {
 					guard = true
+					guardConds = append(guardConds, v.Node)
 				}
 			}
 		}
 		clearLit := false
+		// the test may be made by a helper of the package called in the guarding condition
+		for _, gc := range guardConds {
+			ast.Inspect(gc, func(n ast.Node) bool {
+				if c, ok := n.(*ast.CallExpr); ok {
+					if fn := Callee(info, c); fn != nil && fn.Pkg() == gs.Pkg.Types {
+						if cf := p.CtxOfObj(fn); cf != nil && cf.Body != nil {
+							ast.Inspect(cf.Body, func(m ast.Node) bool {
+								if bl, ok := m.(*ast.BasicLit); ok && bl.Value == `"clear"` {
+									clearLit = true
+								}
+								return true
+							})
+						}
+					}
+				}
+				return true
+			})
+		}
 		ast.Inspect(gs.Body, func(n ast.Node) bool {
 			if bl, ok := n.(*ast.BasicLit); ok && bl.Value == `"clear"` {
 				clearLit = true
